@@ -10,6 +10,15 @@ CHECKS = {
  "C12": ("model_checking", "explicit-state enumeration of all token sequences <= n, differential against a two-state reference scanner",
          "every marker/tag/word/newline token sequence up to the bound (6 quick, 8 thorough) in 4 renderings is run through the real extract_reuse_info and compared with a two-state reference scanner; complete within the bound",
          "alphabet of 7 tokens; tag grammar itself trusted to C02", "4/C12"),
+ "C05": ("model_checking", "regex-to-automaton extraction + complete product exploration against reference automata (language inclusion), model bound to the code by exhaustive short-path replay",
+         "for every glob over {a . / * \\} up to length 6 (quick) / 8 (thorough) and every pair of globs of length <= 2, the automaton of the regex the real code compiles is compared with the narrow/wide reference automata by exploring the whole reachable product (paths of any length); every path of length <= 3 (5 on a slice) and every counterexample is replayed on the real matches() and through `reuse lint`; plus a complete CLI plumbing slice (31 globs x 2 REUSE.toml locations x 25 files)",
+         "glob alphabet of 5 symbols; realistic relative paths; Python's matcher equals NFA acceptance for the constructs used", "4/C05"),
+ "C20": ("model_checking", "complete product enumeration against an independent notice model",
+         "all holders x year forms x 10 prefixes through make_copyright_line and the tool's reader; every subset (<=3 quick, <=4 thorough) of a 36-notice universe through merge_copyright_lines; the same through the annotate CLI read back by lint",
+         "holder grammar of 40 strings; notices that themselves look like tags/terminators excluded", "4/C20"),
+ "C04": ("model_checking", "complete enumeration of the finite precedence product, reference precedence model",
+         "every chain of up to three nested REUSE.toml files (13^3 plus decoy-table variants; all 49^3 in thorough) x 24 file states, plus dep5 cells, judged per file against refmodel.precedence on the (value, source, source_type) items of lint --json",
+         "one glob ('**') per table; values distinct per source so provenance is observable", "4/C04"),
 }
 PENDING_REASON = "check not built yet in this session (design in DESIGN.md section 4); not claimed until its machinery exists"
 
